@@ -3,7 +3,10 @@
    Ingredients: (A) matrix algebra over lists for the model's matvec / transpose_n; (B) the eigen-coordinate identities;
    (C) the More'-Sorensen hypotheses of L_C06_Treigen.ms_sufficiency for p = -V (bv/(sig+lam)); (D) the invariant of the secular
    Newton iteration (the iterates stay on the side |p(lam)| >= Delta, by convexity of 1/(1+h y)^2), so the returned multiplier is
-   admissible; (E) the three branches of treigen_solve. *)
+   admissible; every continuing pass raises lam by at least (sig_0 + lam_0) * tol while sig_0 + lam <= |b|/Delta, which bounds the number
+   of passes: the loop leaves through its tolerance test for every tolerance > 0 once the cap exceeds that bound; over R the exit
+   `lamNew == lam` is never taken; (E) the branches of treigen_solve as repaired by repo commits 4d37146 (zero Hessian) and 545a5c4
+   (capped loop with a stall exit). *)
 From Coq Require Import Reals Lra Lia List QArith Psatz Bool ZArith.
 From OV.base Require Import Num.
 From OV.model Require Import M_C06_Vec M_C06_Treigen.
@@ -272,32 +275,331 @@ Proof.
 Qed.
 
 Definition c9 : R := 1 / 1000000000.
-Lemma secular_spec w sig Delta lam0 : length w = length sig -> (forall x, In x w -> 0 <= x) ->
-  (forall x, In x sig -> 0 < x + lam0) -> 0 < Delta ->
-  forall fuel k lam lam' k',
-  lam0 <= lam -> Delta <= sqrt (pnsq w (rshift lam sig)) ->
-  @secular R NumR fuel k w sig Delta lam (pnsq w (rshift lam sig)) ((sqrt (pnsq w (rshift lam sig)) - Delta) / Delta) = Some (lam', k') ->
-  lam0 <= lam' /\ Rabs (sqrt (pnsq w (rshift lam' sig)) - Delta) <= c9 * Delta.
+Definition rsum := @nsum R NumR.
+Lemma rsum_cons x a : rsum (x :: a) = x + rsum a.
+Proof. reflexivity. Qed.
+Lemma rsum_nil : rsum [] = 0.
+Proof. unfold rsum. cbn. unfold_num. q2r. reflexivity. Qed.
+
+(* m * Q <= N  and  m^2 * N <= sum w  when every shifted eigenvalue is >= m > 0 *)
+Lemma pq_ratio m : 0 < m -> forall w s, length w = length s -> (forall x, In x w -> 0 <= x) -> (forall y, In y s -> m <= y) ->
+  m * qnsq w s <= pnsq w s /\ m * m * pnsq w s <= rsum w.
 Proof.
-  intros E Hw Hs HD. induction fuel as [|fuel IH]; intros k lam lam' k' Hlam Hge Hsec.
-  - cbn [secular] in Hsec. unfold c_1em9 in Hsec. unfold_num. q2r. unfold Rltb in Hsec.
-    destruct (Rlt_dec _ _) as [Hgt|Hle]; [discriminate|]. injection Hsec as <- <-. split; [assumption|].
-    unfold Rdiv in Hle. rewrite Rabs_mult in Hle. rewrite (Rabs_right (/ Delta)) in Hle by (left; apply Rinv_0_lt_compat; assumption).
-    unfold c9. apply Rnot_lt_le in Hle.
-    apply Rmult_le_compat_r with (r := Delta) in Hle; [|lra].
-    rewrite Rmult_assoc, Rinv_l, Rmult_1_r in Hle by lra. unfold Rdiv. lra.
-  - cbn [secular] in Hsec. unfold c_1em9 in Hsec. unfold_num. q2r. unfold Rltb in Hsec.
-    destruct (Rlt_dec _ _) as [Hgt|Hle].
-    + assert (Hs1 : forall x, In x sig -> 0 < x + lam) by (intros x Hx; specialize (Hs x Hx); lra).
-      destruct (secular_step w sig lam Delta E Hw Hs1 HD Hge) as (Hup & Hge').
-      fold pnsq qnsq in Hsec.
-      apply IH in Hsec; [exact Hsec|lra|exact Hge'].
-    + injection Hsec as <- <-. split; [assumption|].
-      unfold Rdiv in Hle. rewrite Rabs_mult in Hle. rewrite (Rabs_right (/ Delta)) in Hle by (left; apply Rinv_0_lt_compat; assumption).
-      unfold c9. apply Rnot_lt_le in Hle.
-      apply Rmult_le_compat_r with (r := Delta) in Hle; [|lra].
-      rewrite Rmult_assoc, Rinv_l, Rmult_1_r in Hle by lra. unfold Rdiv. lra.
+  intros Hm. induction w as [|c w IH]; intros [|x s] E Hw Hs; try discriminate.
+  - unfold pnsq, qnsq, pnorm_squared, qnorm_squared. rewrite !rdot_nil_l, rsum_nil. split; lra.
+  - rewrite pnsq_cons, qnsq_cons, rsum_cons.
+    destruct (IH s ltac:(cbn in E; congruence) ltac:(intros y Hy; apply Hw; right; exact Hy) ltac:(intros y Hy; apply Hs; right; exact Hy))
+      as (H1 & H2).
+    assert (Hc : 0 <= c) by (apply Hw; left; reflexivity). assert (Hx : m <= x) by (apply Hs; left; reflexivity).
+    assert (Hx0 : 0 < x) by lra.
+    assert (E1 : 1 / (x * x) - m * (1 / (x * x * x)) = (x - m) / (x * x * x)) by (field; lra).
+    assert (P3 : 0 < x * x * x) by (repeat apply Rmult_lt_0_compat; lra).
+    assert (0 <= (x - m) / (x * x * x)) by (apply Rmult_le_pos; [lra|left; apply Rinv_0_lt_compat; exact P3]).
+    assert (E2 : 1 - m * m * (1 / (x * x)) = (x * x - m * m) / (x * x)) by (field; lra).
+    assert (0 <= (x * x - m * m) / (x * x)) by (apply Rmult_le_pos; [nra|left; apply Rinv_0_lt_compat; nra]).
+    assert (0 <= c * (1 / (x * x) - m * (1 / (x * x * x)))) by (rewrite E1; apply Rmult_le_pos; assumption).
+    assert (0 <= c * (1 - m * m * (1 / (x * x)))) by (rewrite E2; apply Rmult_le_pos; assumption).
+    split; nra.
 Qed.
+
+(* on the side |p(lam)| >= Delta the shifted lowest eigenvalue is at most sqrt(sum w)/Delta (= |b|/Delta) *)
+Lemma shift_upper w sig Delta m lam : length w = length sig -> (forall x, In x w -> 0 <= x) -> (forall x, In x sig -> m <= x) ->
+  0 < m + lam -> 0 < Delta -> Delta <= sqrt (pnsq w (rshift lam sig)) -> m + lam <= sqrt (rsum w) / Delta.
+Proof.
+  intros E Hw Hm Hpos HD Hge.
+  assert (Hs : forall y, In y (rshift lam sig) -> m + lam <= y).
+  { intros y Hy. destruct (in_rshift _ _ _ Hy) as (x & Hx & ->). specialize (Hm x Hx). lra. }
+  destruct (pq_ratio (m + lam) Hpos w (rshift lam sig) ltac:(rewrite length_rshift; exact E) Hw Hs) as (_ & H2).
+  set (N := pnsq w (rshift lam sig)) in *. set (W := rsum w) in *.
+  assert (HN : Delta * Delta <= N).
+  { destruct (Rle_dec 0 N) as [H0|H0].
+    - pose proof (sqrt_sqrt N H0). pose proof (sqrt_pos N). nra.
+    - rewrite sqrt_neg_0 in Hge by lra. lra. }
+  assert (Hmm : 0 <= (m + lam) * (m + lam)) by nra.
+  assert (Hc : (m + lam) * (m + lam) * (Delta * Delta) <= (m + lam) * (m + lam) * N) by (apply Rmult_le_compat_l; assumption).
+  assert (HW : ((m + lam) * Delta) * ((m + lam) * Delta) <= W) by lra.
+  assert (HW0 : 0 <= W) by nra.
+  assert (Hsq : (m + lam) * Delta <= sqrt W).
+  { rewrite <- (sqrt_square ((m + lam) * Delta)) by nra. apply sqrt_le_1_alt. exact HW. }
+  apply Rmult_le_reg_r with Delta; [exact HD|]. unfold Rdiv. rewrite Rmult_assoc, Rinv_l, Rmult_1_r by lra. exact Hsq.
+Qed.
+
+Lemma head_test_R tol be : Rltb tol (Rabs be) = @nltb R NumR tol (@nabs R NumR be).
+Proof. reflexivity. Qed.
+
+(* what every exit of the secular loop guarantees, from a state on the side |p(lam)| >= Delta:
+   lam does not decrease, the final state is on the same side; the tolerance exit means |p| - Delta <= tol*Delta, the end of the
+   range with the test still failing means |p| - Delta > tol*Delta after exactly `cap` further updates, and the exit `lamNew == lam`
+   is not taken (the Newton correction N/Q * bError is positive as long as bError > tol >= 0) *)
+Lemma secular_spec w sig Delta lam0 tol : length w = length sig -> (forall x, In x w -> 0 <= x) ->
+  (forall x, In x sig -> 0 < x + lam0) -> 0 < Delta -> 0 <= tol ->
+  forall cap k lam lam' br,
+  lam0 <= lam -> Delta <= sqrt (pnsq w (rshift lam sig)) ->
+  @secular R NumR tol cap k w sig Delta lam (pnsq w (rshift lam sig)) ((sqrt (pnsq w (rshift lam sig)) - Delta) / Delta) = (lam', br) ->
+  lam <= lam' /\ Delta <= sqrt (pnsq w (rshift lam' sig)) /\
+  match br with
+  | TSecular j => sqrt (pnsq w (rshift lam' sig)) - Delta <= tol * Delta /\ (k <= j <= k + cap)%nat
+  | TCapped j => tol * Delta < sqrt (pnsq w (rshift lam' sig)) - Delta /\ j = (k + cap)%nat
+  | _ => False
+  end.
+Proof.
+  intros E Hw Hs HD Htol.
+  assert (Hbe : forall N, Delta <= sqrt N -> Rabs ((sqrt N - Delta) / Delta) = (sqrt N - Delta) / Delta /\ 0 <= (sqrt N - Delta) / Delta).
+  { intros N HN. assert (0 <= (sqrt N - Delta) / Delta) by (apply Rmult_le_pos; [lra|left; apply Rinv_0_lt_compat; exact HD]).
+    split; [apply Rabs_right; lra|assumption]. }
+  assert (Hmul : forall N, (sqrt N - Delta) / Delta * Delta = sqrt N - Delta) by (intros N; field; lra).
+  induction cap as [|cap IH]; intros k lam lam' br Hlam Hge Hsec.
+  - cbn [secular] in Hsec. unfold_num. q2r. destruct (Hbe _ Hge) as (Eabs & Hnn). rewrite Eabs in Hsec.
+    destruct (Rltb tol _) eqn:Et; injection Hsec as <- <-; (split; [lra|]); (split; [exact Hge|]).
+    + apply Rltb_true in Et. split; [|lia]. rewrite <- Hmul. apply Rmult_lt_compat_r; assumption.
+    + apply Rltb_false in Et. split; [|lia]. rewrite <- Hmul. apply Rmult_le_compat_r; lra.
+  - cbn [secular] in Hsec. unfold_num. q2r. destruct (Hbe _ Hge) as (Eabs & Hnn). rewrite Eabs in Hsec.
+    destruct (Rltb tol _) eqn:Et.
+    + apply Rltb_true in Et.
+      assert (Hs1 : forall x, In x sig -> 0 < x + lam) by (intros x Hx; specialize (Hs x Hx); lra).
+      destruct (secular_step w sig lam Delta E Hw Hs1 HD Hge) as (Hup & Hge').
+      fold pnsq qnsq in Hsec. fold pnsq qnsq in Hup. cbv zeta in Hup, Hge'.
+      set (N := pnsq w (rshift lam sig)) in *. set (Q := qnsq w (rshift lam sig)) in *.
+      destruct (Reqb _ lam) eqn:Eq.
+      * (* the stall exit cannot be taken *)
+        apply Reqb_true in Eq. exfalso.
+        assert (Hs' : forall y, In y (rshift lam sig) -> 0 < y).
+        { intros y Hy. destruct (in_rshift _ _ _ Hy) as (x & Hx & ->). apply Hs1; assumption. }
+        destruct (pq_nonneg w (rshift lam sig) ltac:(rewrite length_rshift; exact E) Hw Hs') as (HN0 & HQ0 & HNQ).
+        fold N in HN0, HNQ. fold Q in HQ0, HNQ.
+        assert (HNpos : 0 < N). { pose proof (sqrt_sqrt N HN0). nra. }
+        specialize (HNQ HNpos).
+        assert (0 < N / Q) by (apply Rdiv_lt_0_compat; assumption).
+        assert (0 < N / Q * ((sqrt N - Delta) / Delta)) by (apply Rmult_lt_0_compat; lra).
+        lra.
+      * apply IH in Hsec; [|lra|exact Hge'].
+        destruct Hsec as (H1 & H2 & H3). split; [lra|]. split; [exact H2|].
+        destruct br; try exact H3; destruct H3 as (H3 & H4); (split; [exact H3|lia]).
+    + apply Rltb_false in Et. injection Hsec as <- <-. split; [lra|]. split; [exact Hge|].
+      split; [|lia]. rewrite <- Hmul. apply Rmult_le_compat_r; lra.
+Qed.
+
+(* the pass count: a run that leaves through the end of the range made `cap` updates, each of at least (m + lam0) * tol, and
+   m + lam stays <= sqrt(sum w)/Delta: so  cap * (m + lam0) * tol <= sqrt(sum w)/Delta - (m + lam) *)
+Lemma secular_cap_bound w sig Delta lam0 tol m : length w = length sig -> (forall x, In x w -> 0 <= x) ->
+  (forall x, In x sig -> m <= x) -> 0 < m + lam0 -> 0 < Delta -> 0 <= tol ->
+  forall cap k lam lam' j,
+  lam0 <= lam -> Delta <= sqrt (pnsq w (rshift lam sig)) ->
+  @secular R NumR tol cap k w sig Delta lam (pnsq w (rshift lam sig)) ((sqrt (pnsq w (rshift lam sig)) - Delta) / Delta) = (lam', TCapped j) ->
+  INR cap * ((m + lam0) * tol) <= sqrt (rsum w) / Delta - (m + lam).
+Proof.
+  intros E Hw Hm Hpos HD Htol.
+  assert (Hs : forall x, In x sig -> 0 < x + lam0) by (intros x Hx; specialize (Hm x Hx); lra).
+  induction cap as [|cap IH]; intros k lam lam' j Hlam Hge Hsec.
+  - cbn [INR]. rewrite Rmult_0_l.
+    pose proof (shift_upper w sig Delta m lam E Hw Hm ltac:(lra) HD Hge). lra.
+  - cbn [secular] in Hsec. unfold_num. q2r.
+    assert (Hnn : 0 <= (sqrt (pnsq w (rshift lam sig)) - Delta) / Delta)
+      by (apply Rmult_le_pos; [lra|left; apply Rinv_0_lt_compat; exact HD]).
+    rewrite (Rabs_right _ (Rle_ge _ _ Hnn)) in Hsec.
+    destruct (Rltb tol _) eqn:Et; [|discriminate].
+    apply Rltb_true in Et.
+    assert (Hs1 : forall x, In x sig -> 0 < x + lam) by (intros x Hx; specialize (Hs x Hx); lra).
+    destruct (secular_step w sig lam Delta E Hw Hs1 HD Hge) as (Hup & Hge').
+    fold pnsq qnsq in Hsec. fold pnsq qnsq in Hup. cbv zeta in Hup, Hge'.
+    assert (Hsm : forall y, In y (rshift lam sig) -> m + lam <= y).
+    { intros y Hy. destruct (in_rshift _ _ _ Hy) as (x & Hx & ->). specialize (Hm x Hx). lra. }
+    destruct (pq_ratio (m + lam) ltac:(lra) w (rshift lam sig) ltac:(rewrite length_rshift; exact E) Hw Hsm) as (HR & _).
+    assert (Hs' : forall y, In y (rshift lam sig) -> 0 < y) by (intros y Hy; specialize (Hsm y Hy); lra).
+    destruct (pq_nonneg w (rshift lam sig) ltac:(rewrite length_rshift; exact E) Hw Hs') as (HN0 & HQ0 & HNQ).
+    set (N := pnsq w (rshift lam sig)) in *. set (Q := qnsq w (rshift lam sig)) in *.
+    assert (HNpos : 0 < N). { pose proof (sqrt_sqrt N HN0). nra. }
+    specialize (HNQ HNpos).
+    assert (Hratio : m + lam <= N / Q).
+    { apply Rmult_le_reg_r with Q; [exact HNQ|]. unfold Rdiv. rewrite Rmult_assoc, Rinv_l, Rmult_1_r by lra. exact HR. }
+    set (be := (sqrt N - Delta) / Delta) in *.
+    assert (Hstep : (m + lam0) * tol <= N / Q * be).
+    { apply Rmult_le_compat; try lra. }
+    destruct (Reqb _ lam) eqn:Eq; [discriminate|].
+    apply IH in Hsec; [|lra|exact Hge'].
+    rewrite S_INR. lra.
+Qed.
+
+(* an explicit contraction: with all shifted eigenvalues in [m + lam, amax], one Newton step from the side |p| >= Delta multiplies the
+   relative radius error bError = (|p| - Delta)/Delta by at most 1 - (m + lam)/amax  (each term of N shrinks by at least
+   (amax/(amax+h))^2 under the shift h, and h >= (m + lam) * bError) *)
+Lemma pnsq_shrinks lam h amax : 0 <= h -> forall w sig, length w = length sig -> (forall x, In x w -> 0 <= x) ->
+  (forall x, In x sig -> 0 < x + lam <= amax) ->
+  pnsq w (rshift (lam + h) sig) <= pnsq w (rshift lam sig) * (amax / (amax + h) * (amax / (amax + h))).
+Proof.
+  intros Hh. induction w as [|c w IH]; intros [|x sig] E Hw Hs; try discriminate.
+  - unfold pnsq, pnorm_squared. rewrite !rdot_nil_l. lra.
+  - rewrite !rshift_cons, !pnsq_cons.
+    specialize (IH sig ltac:(cbn in E; congruence) ltac:(intros y Hy; apply Hw; right; exact Hy) ltac:(intros y Hy; apply Hs; right; exact Hy)).
+    assert (Hc : 0 <= c) by (apply Hw; left; reflexivity). destruct (Hs x (or_introl eq_refl)) as (Ha & Hamax).
+    replace (x + (lam + h)) with (x + lam + h) by ring. set (a := x + lam) in *.
+    set (q := amax / (amax + h)) in *.
+    assert (Hu : 0 <= a / (a + h) <= q).
+    { split; [apply Rmult_le_pos; [lra|left; apply Rinv_0_lt_compat; lra]|].
+      assert (E1 : a / (a + h) = 1 - h / (a + h)) by (field; lra).
+      assert (E2 : q = 1 - h / (amax + h)) by (unfold q; field; lra).
+      rewrite E1, E2.
+      assert (h / (amax + h) <= h / (a + h)).
+      { unfold Rdiv. apply Rmult_le_compat_l; [exact Hh|]. apply Rinv_le_contravar; lra. }
+      lra. }
+    assert (Hsq : a / (a + h) * (a / (a + h)) <= q * q) by nra.
+    assert (E3 : 1 / ((a + h) * (a + h)) = 1 / (a * a) * (a / (a + h) * (a / (a + h)))) by (field; lra).
+    rewrite E3.
+    assert (P2 : 0 < 1 / (a * a)) by (apply Rdiv_lt_0_compat; nra).
+    assert (0 <= c * (1 / (a * a))) by (apply Rmult_le_pos; lra).
+    assert (c * (1 / (a * a) * (a / (a + h) * (a / (a + h)))) <= c * (1 / (a * a)) * (q * q)).
+    { rewrite <- Rmult_assoc. apply Rmult_le_compat_l; assumption. }
+    lra.
+Qed.
+
+Lemma secular_step_contracts w sig lam Delta m amax : length w = length sig -> (forall x, In x w -> 0 <= x) ->
+  (forall x, In x sig -> m <= x) -> 0 < m + lam -> (forall x, In x sig -> x + lam <= amax) -> 0 < Delta ->
+  let N := pnsq w (rshift lam sig) in let Q := qnsq w (rshift lam sig) in
+  Delta <= sqrt N ->
+  let be := (sqrt N - Delta) / Delta in
+  let lam' := lam + N / Q * be in
+  let be' := (sqrt (pnsq w (rshift lam' sig)) - Delta) / Delta in
+  0 <= be' <= (1 - (m + lam) / amax) * be.
+Proof.
+  intros E Hw Hm Hpos Hmax HD N Q Hge be lam' be'.
+  assert (Hs1 : forall x, In x sig -> 0 < x + lam) by (intros x Hx; specialize (Hm x Hx); lra).
+  destruct (secular_step w sig lam Delta E Hw Hs1 HD Hge) as (Hup & Hge'). fold N Q be lam' in Hup, Hge'.
+  assert (Hsm : forall y, In y (rshift lam sig) -> m + lam <= y).
+  { intros y Hy. destruct (in_rshift _ _ _ Hy) as (x & Hx & ->). specialize (Hm x Hx). lra. }
+  destruct (pq_ratio (m + lam) Hpos w (rshift lam sig) ltac:(rewrite length_rshift; exact E) Hw Hsm) as (HR & _).
+  assert (Hs' : forall y, In y (rshift lam sig) -> 0 < y) by (intros y Hy; specialize (Hsm y Hy); lra).
+  destruct (pq_nonneg w (rshift lam sig) ltac:(rewrite length_rshift; exact E) Hw Hs') as (HN0 & HQ0 & HNQ).
+  fold N in HR, HN0, HNQ. fold Q in HR, HQ0, HNQ.
+  assert (Hsq : sqrt N * sqrt N = N) by (apply sqrt_sqrt; assumption).
+  assert (HNpos : 0 < N) by nra. specialize (HNQ HNpos).
+  assert (Hratio : m + lam <= N / Q).
+  { apply Rmult_le_reg_r with Q; [exact HNQ|]. unfold Rdiv. rewrite Rmult_assoc, Rinv_l, Rmult_1_r by lra. exact HR. }
+  assert (Hbe : 0 <= be) by (unfold be; apply Rmult_le_pos; [lra|left; apply Rinv_0_lt_compat; exact HD]).
+  set (h := N / Q * be) in *.
+  assert (Hh0 : (m + lam) * be <= h) by (unfold h; apply Rmult_le_compat_r; assumption).
+  assert (Hh : 0 <= h) by nra.
+  assert (Hamax : m + lam <= amax).
+  { destruct sig as [|x0 sig']; [destruct w; [|discriminate]; unfold N, pnsq, pnorm_squared in HNpos; rewrite rdot_nil_l in HNpos; lra|].
+    specialize (Hm x0 (or_introl eq_refl)). specialize (Hmax x0 (or_introl eq_refl)). lra. }
+  pose proof (pnsq_shrinks lam h amax Hh w sig E Hw ltac:(intros x Hx; split; [apply Hs1; exact Hx|apply Hmax; exact Hx])) as Hsh.
+  fold N in Hsh. fold lam' in Hsh. set (N' := pnsq w (rshift lam' sig)) in *.
+  set (q := amax / (amax + h)) in *.
+  assert (Hq : 0 < q) by (unfold q; apply Rdiv_lt_0_compat; lra).
+  assert (Hroot : sqrt N' <= sqrt N * q).
+  { rewrite <- (sqrt_square (sqrt N * q)) by (apply Rmult_le_pos; [apply sqrt_pos|lra]).
+    apply sqrt_le_1_alt. replace (sqrt N * q * (sqrt N * q)) with (sqrt N * sqrt N * (q * q)) by ring. rewrite Hsq. exact Hsh. }
+  assert (Es : sqrt N = Delta * (1 + be)) by (unfold be; field; lra).
+  assert (Hq2 : q <= amax / (amax + (m + lam) * be)).
+  { unfold q, Rdiv. apply Rmult_le_compat_l; [lra|]. apply Rinv_le_contravar; nra. }
+  split.
+  - unfold be'. apply Rmult_le_pos; [lra|left; apply Rinv_0_lt_compat; exact HD].
+  - assert (Hb' : be' <= (1 + be) * q - 1).
+    { unfold be'. apply Rmult_le_reg_r with Delta; [exact HD|]. unfold Rdiv. rewrite Rmult_assoc, Rinv_l, Rmult_1_r by lra.
+      rewrite Es in Hroot. nra. }
+    set (mu := m + lam) in *.
+    assert (Hden : 0 < amax + mu * be) by nra.
+    assert (E4 : (1 + be) * (amax / (amax + mu * be)) - 1 = be * (amax - mu) / (amax + mu * be)) by (field; lra).
+    assert (H5 : (1 + be) * q <= (1 + be) * (amax / (amax + mu * be))) by (apply Rmult_le_compat_l; lra).
+    assert (H6 : be * (amax - mu) / (amax + mu * be) <= be * (amax - mu) / amax).
+    { unfold Rdiv. apply Rmult_le_compat_l; [nra|]. apply Rinv_le_contravar; nra. }
+    assert (E7 : be * (amax - mu) / amax = (1 - mu / amax) * be) by (field; lra).
+    lra.
+Qed.
+
+(* the secular Newton iteration as ONE statement, for every tolerance >= 0 and every cap, from any start on the side |p(lam0)| >= Delta
+   with all shifted eigenvalues positive (m = a lower bound of the eigenvalues): the multiplier only grows, the final state is on
+   the same side, the loop leaves either through its tolerance test or through the end of the range -- never through `lamNew == lam` --
+   and the end of the range with the test still failing is possible only while cap*(m+lam0)*tol <= sqrt(sum w)/Delta - (m+lam0). *)
+Lemma secular_newton_spec (w sig : rvec) Delta lam0 tol m :
+  length w = length sig -> (forall x, In x w -> 0 <= x) -> (forall x, In x sig -> m <= x) -> 0 < m + lam0 -> 0 < Delta -> 0 <= tol ->
+  let N := fun lam => pnsq w (rshift lam sig) in
+  Delta <= sqrt (N lam0) ->
+  forall cap,
+  let res := @secular R NumR tol cap 0 w sig Delta lam0 (N lam0) ((sqrt (N lam0) - Delta) / Delta) in
+  lam0 <= fst res /\ Delta <= sqrt (N (fst res)) /\
+  match snd res with
+  | TSecular j => sqrt (N (fst res)) - Delta <= tol * Delta /\ (j <= cap)%nat
+  | TCapped j => tol * Delta < sqrt (N (fst res)) - Delta /\ j = cap /\
+                 INR cap * ((m + lam0) * tol) <= sqrt (rsum w) / Delta - (m + lam0)
+  | _ => False
+  end.
+Proof.
+  intros E Hw Hm Hpos HD Htol N Hge cap res.
+  assert (Hs : forall x, In x sig -> 0 < x + lam0) by (intros x Hx; specialize (Hm x Hx); lra).
+  destruct res as [lam' br] eqn:Es. unfold res in Es. cbn [fst snd].
+  pose proof Es as Es2.
+  apply (secular_spec w sig Delta lam0 tol E Hw Hs HD Htol) in Es; [|lra|exact Hge].
+  destruct Es as (H1 & H2 & H3). split; [exact H1|]. split; [exact H2|].
+  destruct br; try exact H3.
+  - destruct H3 as (H3 & H4). split; [exact H3|lia].
+  - destruct H3 as (H3 & H4). split; [exact H3|]. split; [lia|].
+    exact (secular_cap_bound w sig Delta lam0 tol m E Hw Hm Hpos HD Htol cap 0%nat lam0 lam' iters ltac:(lra) Hge Es2).
+Qed.
+(* termination for every tolerance > 0: a cap beyond the bound makes the loop leave through its tolerance test *)
+Lemma secular_newton_terminates (w sig : rvec) Delta lam0 tol m :
+  length w = length sig -> (forall x, In x w -> 0 <= x) -> (forall x, In x sig -> m <= x) -> 0 < m + lam0 -> 0 < Delta -> 0 < tol ->
+  let N := fun lam => pnsq w (rshift lam sig) in
+  Delta <= sqrt (N lam0) ->
+  forall cap, sqrt (rsum w) / Delta - (m + lam0) < INR cap * ((m + lam0) * tol) ->
+  exists lam' j, @secular R NumR tol cap 0 w sig Delta lam0 (N lam0) ((sqrt (N lam0) - Delta) / Delta) = (lam', TSecular j) /\
+                 (j <= cap)%nat /\ lam0 <= lam' /\ 0 <= sqrt (N lam') - Delta <= tol * Delta.
+Proof.
+  intros E Hw Hm Hpos HD Htol N Hge cap Hcap.
+  pose proof (secular_newton_spec w sig Delta lam0 tol m E Hw Hm Hpos HD ltac:(lra) Hge cap) as H. cbv zeta in H. fold N in H.
+  destruct (secular _ _ _ _ _ _ _ _ _) as [lam' br]. cbn [fst snd] in H. destruct H as (H1 & H2 & H3).
+  destruct br; try (exfalso; exact H3).
+  - exists lam', iters. destruct H3 as (H3 & H4). repeat split; try assumption; lra.
+  - exfalso. destruct H3 as (_ & _ & H5). lra.
+Qed.
+
+(* A = 0 (finding F2b, fixed by repo commit 4d37146): the model is s.b and its minimiser over the ball is -Delta*b/|b|,
+   what the early return yields *)
+Lemma linear_model_minimiser n (b s : rvec) Delta : len n b -> len n s -> 0 < Delta -> 0 < b ⋅ b -> s ⋅ s <= Delta * Delta ->
+  let p := rscale (- Delta / sqrt (b ⋅ b)) b in
+  p ⋅ p = Delta * Delta /\ energyR (fun v => rzero v) b p <= energyR (fun v => rzero v) b s.
+Proof.
+  intros Hb Hs HD Hbb Hss. cbv zeta. unfold energyR. rewrite !rdot_rzero_r.
+  rewrite !rdot_rscale_l, rdot_rscale_r.
+  pose proof (sqrt_sqrt (b ⋅ b) ltac:(lra)) as Hq. pose proof (sqrt_lt_R0 _ Hbb) as Hq0.
+  set (r := sqrt (b ⋅ b)) in *.
+  split.
+  - rewrite <- Hq. field. lra.
+  - assert (E : - Delta / r * (b ⋅ b) = - (Delta * r)) by (rewrite <- Hq; field; lra).
+    replace (/ 2 * 0 + - Delta / r * (b ⋅ b)) with (- (Delta * r)) by lra.
+    pose proof (rdot_cauchy_schwarz n s b Hs Hb) as Hcs.
+    assert (H2 : (s ⋅ b) * (s ⋅ b) <= (Delta * r) * (Delta * r)).
+    { replace (Delta * r * (Delta * r)) with (Delta * Delta * (r * r)) by ring. rewrite Hq.
+      pose proof (rdot_self_nonneg s). nra. }
+    assert (0 < Delta * r) by (apply Rmult_lt_0_compat; assumption).
+    destruct (Rle_dec 0 (s ⋅ b)); nra.
+Qed.
+
+Lemma linear_min_dot n (b s : rvec) Delta : len n b -> len n s -> 0 < Delta -> 0 < b ⋅ b -> s ⋅ s <= Delta * Delta ->
+  let p := rscale (- (Delta / sqrt (b ⋅ b))) b in p ⋅ p = Delta * Delta /\ p ⋅ b <= s ⋅ b.
+Proof.
+  intros Hb Hs HD Hbb Hss. cbv zeta.
+  destruct (linear_model_minimiser n b s Delta Hb Hs HD Hbb Hss) as (H1 & H2). cbv zeta in H1, H2.
+  replace (- (Delta / sqrt (b ⋅ b))) with (- Delta / sqrt (b ⋅ b)) by (unfold Rdiv; ring).
+  split; [exact H1|]. unfold energyR in H2. rewrite !rdot_rzero_r in H2. lra.
+Qed.
+Lemma rsum_abs_nonneg (s : rvec) : 0 <= rsum (map Rabs s).
+Proof. induction s as [|x s IH]; cbn [map]; [rewrite rsum_nil; lra|]. rewrite rsum_cons. pose proof (Rabs_pos x). lra. Qed.
+Lemma rsum_abs_zero (s : rvec) : rsum (map Rabs s) = 0 -> forall x, In x s -> x = 0.
+Proof.
+  induction s as [|y s IH]; intros H x Hx; [destruct Hx|]. cbn [map] in H. rewrite rsum_cons in H.
+  pose proof (Rabs_pos y). pose proof (rsum_abs_nonneg s).
+  destruct Hx as [<-|Hx]; [|apply IH; [lra|exact Hx]].
+  destruct (Req_dec y 0) as [E|E]; [exact E|]. pose proof (Rabs_pos_lt y E). lra.
+Qed.
+Lemma rmul_zero_dot : forall sig u, length u = length sig -> (forall x, In x sig -> x = 0) -> u ⋅ rmul sig u = 0.
+Proof.
+  induction sig as [|x sig IH]; intros [|y u] E Hz; try discriminate.
+  - apply rdot_nil_l.
+  - rewrite rmul_cons, rdot_cons. rewrite IH by (try (cbn in E; congruence); intros w Hw; apply Hz; right; exact Hw).
+    rewrite (Hz x (or_introl eq_refl)). ring.
+Qed.
+Lemma rsum_rmul_self a : rsum (rmul a a) = a ⋅ a.
+Proof. induction a as [|x a IH]; [rewrite rdot_nil_l; apply rsum_nil|]. rewrite rmul_cons, rsum_cons, rdot_cons, IH. reflexivity. Qed.
 
 (* ------------------------------------------------------------------ (C) what the eigh contract gives *)
 Section Eigh.
@@ -424,7 +726,7 @@ Section Eigh.
 
   Variable Delta : R.
   Hypothesis Dpos : 0 < Delta.
-  Hypothesis Anz : 0 < @vmean_abs R NumR sig.            (* A <> 0; the excluded case A = 0 is finding F2b *)
+  Variable cap : nat.                                    (* the `range(100)` of the secular loop *)
   Definition c12 : R := 1 / 1000000000000.
   Definition eps_shift : R := c12 * @vmean_abs R NumR sig.   (* eps = 1e-12 * mean|sig| *)
 
@@ -450,54 +752,90 @@ Section Eigh.
     apply Rabs_le. split; nra.
   Qed.
 
+  Lemma mean_abs_R : @vmean_abs R NumR sig = rsum (map Rabs sig) / INR n.
+  Proof.
+    unfold vmean_abs. rewrite (siglen : length sig = n). unfold_num. q2r. fold rsum. rewrite <- INR_IZR_INZ. reflexivity.
+  Qed.
+  Lemma mean_abs_nonneg : 0 <= @vmean_abs R NumR sig.
+  Proof.
+    rewrite mean_abs_R. apply Rmult_le_pos; [apply rsum_abs_nonneg|]. left. apply Rinv_0_lt_compat. apply lt_0_INR. unfold n. lia.
+  Qed.
+  Lemma mean_abs_zero : @vmean_abs R NumR sig = 0 -> forall x, In x sig -> x = 0.
+  Proof.
+    rewrite mean_abs_R. intros H. apply rsum_abs_zero.
+    assert (Hn : 0 < INR n) by (apply lt_0_INR; unfold n; lia).
+    apply Rmult_eq_compat_r with (r := INR n) in H. unfold Rdiv in H. rewrite Rmult_assoc, Rinv_l, Rmult_1_r, Rmult_0_l in H by lra. exact H.
+  Qed.
+  Lemma bvv_sum : rsum bvv = b ⋅ b.
+  Proof. unfold bvv. rewrite rsum_rmul_self. unfold bv. symmetry. apply dot_via_Vt; exact blen. Qed.
+
   Definition PostT (res : trbranch * rvec) : Prop :=
     match res with
     | (TInterior, p) => len n p /\ p ⋅ p < Delta * Delta /\
                         forall s, len n s -> s ⋅ s <= Delta * Delta -> energyR A b p <= energyR A b s
     | (THard, p) => len n p /\ p ⋅ p = Delta * Delta /\
                     forall s, len n s -> s ⋅ s <= Delta * Delta -> energyR A b p <= energyR A b s + 4 * eps_shift * (Delta * Delta)
-    | (TSecular _, p) => len n p /\ Rabs (sqrt (p ⋅ p) - Delta) <= c9 * Delta /\
+    | (TZero, p) => len n p /\ p ⋅ p <= Delta * Delta /\ (0 < b ⋅ b -> p ⋅ p = Delta * Delta) /\
+                    forall s, len n s -> s ⋅ s <= Delta * Delta -> energyR A b p <= energyR A b s
+    | (TSecular j, p) => len n p /\ Rabs (sqrt (p ⋅ p) - Delta) <= c9 * Delta /\ (j <= cap)%nat /\
                          forall s, len n s -> s ⋅ s <= p ⋅ p -> energyR A b p <= energyR A b s
-    | (TOutOfFuel, _) => True
+    | (TCapped j, p) => len n p /\ (1 + c9) * Delta < sqrt (p ⋅ p) /\ j = cap /\
+                        INR cap * (eps_shift * c9) <= sqrt (b ⋅ b) / Delta - eps_shift /\
+                        forall s, len n s -> s ⋅ s <= p ⋅ p -> energyR A b p <= energyR A b s
+    | (TStalled _, _) => False
     end.
 
-  Lemma secular_branch fuel lam0 : 0 <= lam0 -> 0 < hd 0 sig + lam0 ->
+  Lemma c9_is : @c_1em9 R NumR = c9.
+  Proof. unfold c_1em9, c9. unfold_num. q2r. reflexivity. Qed.
+
+  Lemma secular_branch lam0 : 0 <= lam0 -> 0 < hd 0 sig + lam0 -> eps_shift <= hd 0 sig + lam0 -> 0 < eps_shift ->
     Delta <= sqrt (rdiv bv (rshift lam0 sig) ⋅ rdiv bv (rshift lam0 sig)) ->
-    PostT match @secular R NumR fuel 0 bvv sig Delta lam0 (pnsq bvv (rshift lam0 sig))
-                                 ((sqrt (pnsq bvv (rshift lam0 sig)) - Delta) / Delta) with
-          | Some (lam', k0) => (TSecular k0, rneg (rmatvec V (rdiv bv (rshift lam' sig))))
-          | None => (TOutOfFuel, [])
-          end.
+    PostT (let '(lam', br) := @secular R NumR (@c_1em9 R NumR) cap 0 bvv sig Delta lam0 (pnsq bvv (rshift lam0 sig))
+                                 ((sqrt (pnsq bvv (rshift lam0 sig)) - Delta) / Delta) in
+           (br, rneg (rmatvec V (rdiv bv (rshift lam' sig))))).
   Proof.
-    intros Hl0 Hpos0 Hge.
+    intros Hl0 Hpos0 Heps1 Heps0 Hge. rewrite c9_is.
     pose proof (all_shift_pos lam0 Hpos0) as Hall0.
     assert (EN0 : rdiv bv (rshift lam0 sig) ⋅ rdiv bv (rshift lam0 sig) = pnsq bvv (rshift lam0 sig)).
     { apply dot_vdiv_self; [rewrite length_rshift; exact bvlen|].
       intros y Hy. destruct (in_rshift _ _ _ Hy) as (x & Hx & ->). specialize (Hall0 x Hx). lra. }
     rewrite EN0 in Hge.
-    destruct (secular _ _ _ _ _ _ _ _) as [[lam' k0]|] eqn:Es; [|exact I].
-    apply (secular_spec bvv sig Delta lam0 bvvlen bvv_nonneg Hall0 Dpos) in Es; [|lra|exact Hge].
-    destruct Es as (Hl & Hclose).
-    fold (pof lam'). unfold PostT.
+    assert (Hc9 : 0 <= c9) by (unfold c9; lra).
+    destruct (secular _ _ _ _ _ _ _ _ _) as [lam' br] eqn:Es.
+    pose proof Es as Es2.
+    apply (secular_spec bvv sig Delta lam0 c9 bvvlen bvv_nonneg Hall0 Dpos Hc9) in Es; [|lra|exact Hge].
+    destruct Es as (Hl & Hge' & Hbr).
+    fold (pof lam').
     assert (Hpos : 0 < hd 0 sig + lam') by lra.
     pose proof (all_shift_pos lam' Hpos) as Hall.
-    rewrite pof_norm by (intros x Hx; specialize (Hall x Hx); lra).
-    split; [apply pof_len|]. split; [exact Hclose|].
-    intros s Hs Hball.
+    assert (Hnorm : pof lam' ⋅ pof lam' = pnsq bvv (rshift lam' sig))
+      by (apply pof_norm; intros x Hx; specialize (Hall x Hx); lra).
     destruct (pq_nonneg bvv (rshift lam' sig) ltac:(rewrite length_rshift; exact bvvlen) bvv_nonneg
                 ltac:(intros y Hy; destruct (in_rshift _ _ _ Hy) as (x & Hx & ->); apply Hall; exact Hx)) as (HN & _).
     pose proof (sqrt_sqrt _ HN) as Hsq.
-    apply (pof_optimal lam' (sqrt (pnsq bvv (rshift lam' sig)))); try assumption; try lra.
-    - rewrite pof_norm by (intros x Hx; specialize (Hall x Hx); lra). lra.
-    - rewrite pof_norm by (intros x Hx; specialize (Hall x Hx); lra). rewrite Hsq. ring.
+    assert (Hopt : forall s, len n s -> s ⋅ s <= pof lam' ⋅ pof lam' -> energyR A b (pof lam') <= energyR A b s).
+    { intros s Hs Hball. rewrite Hnorm in Hball.
+      apply (pof_optimal lam' (sqrt (pnsq bvv (rshift lam' sig)))); try assumption; try lra.
+      all: rewrite ?Hnorm, ?Hsq; try lra; ring. }
+    destruct br as [| |j| |j|j]; try (exfalso; exact Hbr); unfold PostT; rewrite Hnorm.
+    - destruct Hbr as (Hclose & Hj). split; [apply pof_len|]. split; [rewrite Rabs_right by lra; exact Hclose|].
+      split; [lia|]. rewrite <- Hnorm. exact Hopt.
+    - destruct Hbr as (Hfar & Hj). split; [apply pof_len|]. split; [lra|]. split; [lia|].
+      split; [|rewrite <- Hnorm; exact Hopt].
+      subst j.
+      pose proof (secular_cap_bound bvv sig Delta lam0 c9 (hd 0 sig) bvvlen bvv_nonneg ascending Hpos0 Dpos Hc9
+                    cap 0%nat lam0 lam' (0 + cap)%nat ltac:(lra) Hge Es2) as Hb.
+      rewrite bvv_sum in Hb. pose proof (pos_INR cap) as Hcap.
+      assert (INR cap * (eps_shift * c9) <= INR cap * ((hd 0 sig + lam0) * c9)).
+      { apply Rmult_le_compat_l; [exact Hcap|]. apply Rmult_le_compat_r; lra. }
+      lra.
   Qed.
 
-  Lemma hard_branch : hd 0 sig < eps_shift ->
+  Lemma hard_branch : 0 < eps_shift -> hd 0 sig < eps_shift ->
     sqrt (rdiv bv (rshift (- hd 0 sig + eps_shift) sig) ⋅ rdiv bv (rshift (- hd 0 sig + eps_shift) sig)) < Delta ->
     PostT (THard, @hard_case_step R NumR (rneg (rmatvec V (rdiv bv (rshift (- hd 0 sig + eps_shift) sig)))) z Delta).
   Proof.
-    intros E2 E3.
-    assert (Heps : 0 < eps_shift) by (unfold eps_shift, c12; apply Rmult_lt_0_compat; lra).
+    intros Heps E2 E3.
     set (lam0 := - hd 0 sig + eps_shift) in *. fold (pof lam0).
     assert (Hl0 : 0 <= lam0) by (unfold lam0; lra).
     assert (Hpos0 : 0 < hd 0 sig + lam0) by (unfold lam0; lra).
@@ -524,11 +862,39 @@ Section Eigh.
     lra.
   Qed.
 
-  Theorem treigen_minimiser fuel : PostT (@treigen_solve R NumR fuel sig V b Delta).
+  (* sigScale == 0: every eigenvalue is zero, the model is s.b *)
+  Lemma zero_branch : @vmean_abs R NumR sig = 0 ->
+    PostT (TZero, if Rltb 0 (sqrt (b ⋅ b)) then rscale (- (Delta / sqrt (b ⋅ b))) b else rscale 0 b).
+  Proof.
+    intros HZ. pose proof (mean_abs_zero HZ) as Hall.
+    assert (Hq : forall s, len n s -> s ⋅ A s = 0).
+    { intros s Hs. rewrite decomp by assumption. rewrite adj by (apply len_sigmul, len_Vt).
+      apply rmul_zero_dot; [rewrite (len_Vt s); symmetry; exact siglen|exact Hall]. }
+    assert (Hen : forall s, len n s -> energyR A b s = s ⋅ b) by (intros s Hs; unfold energyR; rewrite (Hq s Hs); ring).
+    unfold PostT. destruct (Rltb 0 (sqrt (b ⋅ b))) eqn:Eb.
+    - apply Rltb_true in Eb.
+      assert (Hbb : 0 < b ⋅ b).
+      { destruct (Rle_lt_or_eq_dec 0 (b ⋅ b) (rdot_self_nonneg b)) as [H|H]; [exact H|]. rewrite <- H, sqrt_0 in Eb. lra. }
+      split; [auto with vlen|].
+      assert (Hz0 : rzero b ⋅ rzero b <= Delta * Delta) by (rewrite rdot_rzero_l; nra).
+      destruct (linear_min_dot n b (rzero b) Delta blen ltac:(auto with vlen) Dpos Hbb Hz0) as (Hpp & _). cbv zeta in Hpp.
+      split; [lra|]. split; [intros _; exact Hpp|].
+      intros s Hs Hball. rewrite (Hen s Hs), Hen by auto with vlen.
+      destruct (linear_min_dot n b s Delta blen Hs Dpos Hbb Hball) as (_ & H2). exact H2.
+    - apply Rltb_false in Eb.
+      assert (Hbb : b ⋅ b = 0).
+      { pose proof (rdot_self_nonneg b) as H0. pose proof (sqrt_pos (b ⋅ b)). apply sqrt_eq_0; [exact H0|lra]. }
+      split; [auto with vlen|].
+      rewrite rdot_rscale_l, rdot_rscale_r.
+      split; [nra|]. split; [intros H; lra|].
+      intros s Hs Hball. rewrite (Hen s Hs), Hen by auto with vlen.
+      rewrite rdot_rscale_l. rewrite (rdot_comm s b), (rdot_self_zero b Hbb s). lra.
+  Qed.
+
+  Theorem treigen_minimiser : PostT (@treigen_solve R NumR cap sig V b Delta).
   Proof.
     unfold treigen_solve. cbv zeta. rewrite (siglen : length sig = n). fold Vt. fold bv. fold bvv. fold z.
     rewrite !vnorm_R. unfold c_1em12. unfold_num. q2r. fold c12. fold eps_shift. fold pnsq.
-    assert (Heps : 0 < eps_shift) by (unfold eps_shift, c12; apply Rmult_lt_0_compat; lra).
     set (sig0 := hd 0 sig).
     destruct (Rltb 0 sig0) eqn:E0; destruct (Rltb (sqrt (rdiv bv sig ⋅ rdiv bv sig)) Delta) eqn:E1; cbn [andb].
     1: { (* interior *)
@@ -539,16 +905,20 @@ Section Eigh.
       { rewrite pof_norm', rshift_0. apply sqrt_lt_sq; [apply rdot_self_nonneg|exact Dpos|exact E1]. }
       split; [apply pof_len|]. split; [exact Hpp|].
       apply (pof_optimal 0 Delta); [lra|fold sig0; lra|lra|ring]. }
+    all: destruct (Reqb (@vmean_abs R NumR sig) 0) eqn:EZ.
+    all: try (apply Reqb_true in EZ; apply zero_branch; exact EZ).
+    all: apply Reqb_false in EZ.
+    all: assert (Heps : 0 < eps_shift) by (pose proof mean_abs_nonneg; unfold eps_shift, c12; apply Rmult_lt_0_compat; lra).
     all: destruct (Rltb sig0 eps_shift) eqn:E2; cbn [andb].
     all: try (destruct (Rltb (sqrt (rdiv bv (rshift (- sig0 + eps_shift) sig) ⋅ rdiv bv (rshift (- sig0 + eps_shift) sig))) Delta) eqn:E3).
     all: try (apply Rltb_true in E2); try (apply Rltb_false in E2).
     (* secular branches with lam0 = 0: eps <= sig0, so sig0 > 0 and the interior test failed on the norm *)
     all: try (apply Rltb_false in E0; exfalso; lra).
-    all: try match goal with |- PostT match secular _ _ _ _ _ 0 _ _ with _ => _ end =>
-           apply Rltb_false in E1; apply secular_branch; [lra|fold sig0; lra|rewrite rshift_0; exact E1] end.
+    all: try match goal with |- PostT (let '(_, _) := secular _ _ _ _ _ _ 0 _ _ in _) =>
+           apply Rltb_false in E1; apply secular_branch; [lra|fold sig0; lra|fold sig0; lra|exact Heps|rewrite rshift_0; exact E1] end.
     (* secular branches with lam0 = -sig0 + eps *)
-    all: try match goal with |- PostT match secular _ _ _ _ _ _ _ _ with _ => _ end =>
-           apply Rltb_false in E3; apply secular_branch; [lra|fold sig0; lra|exact E3] end.
+    all: try match goal with |- PostT (let '(_, _) := secular _ _ _ _ _ _ _ _ _ in _) =>
+           apply Rltb_false in E3; apply secular_branch; [lra|fold sig0; lra|fold sig0; lra|exact Heps|exact E3] end.
     (* hard case *)
     all: apply Rltb_true in E3; apply hard_branch; assumption.
   Qed.
@@ -574,28 +944,6 @@ Proof.
   pose proof (rdot_self_nonneg (pof k sig V b lam)) as Hnn. pose proof (sqrt_sqrt _ Hnn) as Hsq.
   apply (pof_optimal k A sig V b Hsig Hrows HV Hb O1 O2 Dec Asc lam (sqrt (pof k sig V b lam ⋅ pof k sig V b lam))); try assumption; try lra.
   rewrite Hsq. ring.
-Qed.
-
-(* the case excluded by the guard A <> 0 (finding F2b): for A = 0 the model is s.b and its minimiser over the ball is -Delta*b/|b|
-   (what the patch proposed for F2b returns) *)
-Lemma linear_model_minimiser n (b s : rvec) Delta : len n b -> len n s -> 0 < Delta -> 0 < b ⋅ b -> s ⋅ s <= Delta * Delta ->
-  let p := rscale (- Delta / sqrt (b ⋅ b)) b in
-  p ⋅ p = Delta * Delta /\ energyR (fun v => rzero v) b p <= energyR (fun v => rzero v) b s.
-Proof.
-  intros Hb Hs HD Hbb Hss. cbv zeta. unfold energyR. rewrite !rdot_rzero_r.
-  rewrite !rdot_rscale_l, rdot_rscale_r.
-  pose proof (sqrt_sqrt (b ⋅ b) ltac:(lra)) as Hq. pose proof (sqrt_lt_R0 _ Hbb) as Hq0.
-  set (r := sqrt (b ⋅ b)) in *.
-  split.
-  - rewrite <- Hq. field. lra.
-  - assert (E : - Delta / r * (b ⋅ b) = - (Delta * r)) by (rewrite <- Hq; field; lra).
-    replace (/ 2 * 0 + - Delta / r * (b ⋅ b)) with (- (Delta * r)) by lra.
-    pose proof (rdot_cauchy_schwarz n s b Hs Hb) as Hcs.
-    assert (H2 : (s ⋅ b) * (s ⋅ b) <= (Delta * r) * (Delta * r)).
-    { replace (Delta * r * (Delta * r)) with (Delta * Delta * (r * r)) by ring. rewrite Hq.
-      pose proof (rdot_self_nonneg s). nra. }
-    assert (0 < Delta * r) by (apply Rmult_lt_0_compat; assumption).
-    destruct (Rle_dec 0 (s ⋅ b)); nra.
 Qed.
 
 (* ------------------------------------------------------------------ the hypotheses are satisfiable and the secular branch is reached:
@@ -626,6 +974,38 @@ Proof.
           first [replace e with (2 * 2) by lra; rewrite (sqrt_square 2) by lra | replace e with (1 * 1) by lra; rewrite (sqrt_square 1) by lra] end
       | match goal with |- context [Rltb ?a ?b] =>
           first [rewrite (proj2 (Rltb_true a b)) by lra | rewrite (proj2 (Rltb_false a b)) by lra] end
+      | match goal with |- context [Reqb ?a ?b] =>
+          first [rewrite (proj2 (Reqb_true a b)) by lra | rewrite (proj2 (Reqb_false a b)) by lra] end
+      | progress cbn [andb] ].
+    repeat f_equal. lra.
+Qed.
+
+(* ... and the zero-Hessian return is reached with the same contract: A = (0), b = (2), Delta = 1 gives the step (-1) *)
+Lemma treigen_zero_nonvacuous :
+  let sig := [0] in let V := [[1]] in let b := [2] in
+  let A := fun x : rvec => rmatvec V (rmul sig (rmatvec (rtranspose 1 V) x)) in
+  len 1 sig /\ rows 1 V /\ length V = 1%nat /\ len 1 b /\
+  (forall y, len 1 y -> rmatvec (rtranspose 1 V) (rmatvec V y) = y) /\
+  (forall x, len 1 x -> rmatvec V (rmatvec (rtranspose 1 V) x) = x) /\
+  (forall x, len 1 x -> A x = rmatvec V (rmul sig (rmatvec (rtranspose 1 V) x))) /\
+  (forall x, In x sig -> hd 0 sig <= x) /\
+  @treigen_solve R NumR 100 sig V b 1 = (TZero, [-1]).
+Proof.
+  cbv zeta. repeat split; auto.
+  - intros row [<-|[]]. reflexivity.
+  - intros y Hy. destruct (len1_inv y Hy) as (a & ->). cbn. unfold_num. q2r. f_equal. ring.
+  - intros y Hy. destruct (len1_inv y Hy) as (a & ->). cbn. unfold_num. q2r. f_equal. ring.
+  - intros x [<-|[]]. cbn. lra.
+  - cbv beta iota zeta delta [treigen_solve length matvec transpose_n map hd tl vmul vdiv vshift vmap2 vnorm vneg vscale vdot ndot vmean_abs nsum Z.of_nat Pos.of_succ_nat].
+    unfold_num. q2r.
+    repeat first
+      [ match goal with |- context [Rabs ?e] => first [rewrite (Rabs_right e) by lra | rewrite (Rabs_left e) by lra] end
+      | match goal with |- context [sqrt ?e] =>
+          first [replace e with (2 * 2) by lra; rewrite (sqrt_square 2) by lra | replace e with (0 * 0) by lra; rewrite (sqrt_square 0) by lra] end
+      | match goal with |- context [Rltb ?a ?b] =>
+          first [rewrite (proj2 (Rltb_true a b)) by lra | rewrite (proj2 (Rltb_false a b)) by lra] end
+      | match goal with |- context [Reqb ?a ?b] =>
+          first [rewrite (proj2 (Reqb_true a b)) by lra | rewrite (proj2 (Reqb_false a b)) by lra] end
       | progress cbn [andb] ].
     repeat f_equal. lra.
 Qed.
